@@ -43,9 +43,18 @@ class Router:
         return frozenset(self.topics_by_queue.keys())
 
     def include_router(self, router: Router) -> None:
-        self.actors.update(router.actors)
-        for queue_name, topics in router.topics_by_queue.items():
-            self.topics_by_queue[queue_name].update(topics)
+        for actor in router.actors.values():
+            self._register(actor)
+
+    def _register(self, actor: ActorData) -> None:
+        # the last registration of a name wins: forget the queue of the previous one
+        previous = self.actors.get(actor.name)
+        if previous is not None and previous.queue != actor.queue:
+            self.topics_by_queue[previous.queue].discard(actor.name)
+            if not self.topics_by_queue[previous.queue]:
+                del self.topics_by_queue[previous.queue]
+        self.actors[actor.name] = actor
+        self.topics_by_queue[actor.queue].add(actor.name)
 
     @overload
     def actor(
@@ -136,6 +145,5 @@ class Router:
                 "followed by letters, digits, dashes or underscores.",
             )
 
-        self.actors[a.name] = a
-        self.topics_by_queue[a.queue].add(a.name)
+        self._register(a)
         return fn
